@@ -4,6 +4,7 @@ canonical form (symbolic leg) and evaluated in `Float` on a table (numeric leg).
 -/
 import DitModel.Core.Info
 import DitModel.Core.Ops
+import DitModel.Core.Partition
 import DitModel.Drv.Basic
 namespace Dit.Drv
 open Dit
@@ -34,6 +35,10 @@ def measureCombs (name : String) (k : Nat) (groups : List VSet) (Z : VSet) : Opt
   | "tse_complexity" => some [tseC groups Z]
   | "cohesion" => some [cohesionC k groups Z]
   | "caekl_mutual_information" => some (caeklCands groups Z)
+  | "atom" => some [atomC k (vunions groups)]
+  | "query" => some [queryC k groups Z]
+  | "profile" => some [profileC k (Z.getD 0 0)]
+  | "atoms_total" => some [atomsTotalC k]
   | "cmi" => match groups with
       | [X, Y] => some [cmiC X Y Z]
       | _ => none
